@@ -250,6 +250,37 @@ def runOp : P String := do
   | "HPHI" =>
     let x ← pFloat
     pure ("OK " ++ toHex (HP.toFloat (HP.Phi 128 (HP.ofFloat x))))
+  | "LEAGUE" =>
+    -- a whole league history on the model's league machine (ratings fed back by player number)
+    let beta ← pFloat
+    let kappa ← pFloat
+    let tau ← pFloat
+    let ls ← pBool
+    let g ← pGamma
+    let np ← pNat
+    let init ← pMany np (do let m ← pFloat; let sg ← pFloat; pure (m, sg))
+    let ng ← pNat
+    let mut games : Array (LeagueGame Float PyNum) := #[]
+    for _ in [0:ng] do
+      let k ← pKind
+      let tauO ← pOptFloat
+      let lsO ← pOptBool
+      let oc ← tok
+      let nt ← pNat
+      let sizes ← pMany nt pNat
+      let mut teams : Array (List Nat) := #[]
+      for sz in sizes do
+        teams := teams.push (← pMany sz pNat)
+      let outcome : Outcome PyNum ← match oc with
+        | "N" => pure Outcome.omitted
+        | "R" => Outcome.ranks <$> pMany nt pNum
+        | "S" => Outcome.scores <$> pMany nt pNum
+        | t => throw s!"bad-outcome {t}"
+      games := games.push { kind := k, teams := teams.toList, outcome := outcome, opts := { tau := tauO, limitSigma := lsO } }
+    let P : Params Float := { beta := beta, kappa := kappa, tau := tau, limitSigma := ls, gamma := g }
+    let s0 : Store Float := { mu := fun p => (init.getD p (0.0, 0.0)).1, sigma := fun p => (init.getD p (0.0, 0.0)).2 }
+    let sN := playLeague codeLeaves P PyNum.le PyNum.neg s0 games.toList
+    pure ("OK " ++ " ".intercalate ((List.range np).map (fun p => s!"{toHex (sN.mu p)}:{toHex (sN.sigma p)}")))
   | "LADDER" =>
     -- the literal model of common.py::_ladder_pairs on the list [1, …, n]
     let n ← pNat
